@@ -580,6 +580,11 @@ func (info *Info) FindLookups(lang language.Tag, includeFeature map[string]bool)
 	for tag := range info.ScriptList {
 		tags = append(tags, tag)
 	}
+	// Sort the tags, so that the result does not depend on the iteration
+	// order of the map (the first tag is the fallback of the matcher).
+	sort.Slice(tags, func(i, j int) bool {
+		return tags[i].String() < tags[j].String()
+	})
 	// TODO(voss): make sure a sensible default comes first.
 	//     Maybe this could be based on the number of features supported?
 
